@@ -1,9 +1,12 @@
 #!/bin/bash
-# usage: run_seeded.sh [ids...]   -- runs every seeded mutant against the quick check of the property it breaks
+# usage: run_seeded.sh [id | id:CHECK ...]   -- runs seeded faulty variants against the quick check of the property they break
+# (or of another property when written id:CHECK)
 cd /verif/seeded
 ids=${@:-$(ls)}
-for sid in $ids; do
-  prop=$(python3 -c "import json;print(json.load(open('/verif/seeded/$sid/meta.json'))['breaks_property'])")
+for x in $ids; do
+  sid=${x%%:*}
+  if [[ "$x" == *:* ]]; then prop=${x##*:}; else
+    prop=$(python3 -c "import json;print(json.load(open('/verif/seeded/$sid/meta.json'))['breaks_property'])"); fi
   echo "=== $sid vs $prop"
   /verif/tools/trymut.sh /verif/seeded/$sid/patch.diff $prop | grep -E "^(VIOLATION|DONE|rc=|PATCH|HARNESS)" | cut -c1-260 | head -14
 done
